@@ -65,6 +65,8 @@ ESTIMATORS = {
     "Lin": recorder.Lin,
     "Cubic": recorder.Cubic,
     "LinTied": recorder.LinTied,
+    "LinOffset": recorder.LinOffset,
+    "LinTiny": recorder.LinTiny,
     "LinBoth": recorder.LinBoth,
     "Proba": recorder.Proba,
     "Proba1": recorder.Proba1,
@@ -162,13 +164,19 @@ def full_keys(df, meta):
     return list(zip(*[df[c].tolist() for c in cols]))
 
 
-def rescore(case, tmp, models, order):
-    """Second brew call on the same files with the already trained fold models handed over in another order.
-    Returns the list of score arrays (or raises Rejected / Violation via guarded)."""
+def rescore(case, tmp, models, order, capture_events=False):
+    """Second brew call on the same files with the already trained fold models handed over in another order
+    (`order` may repeat an index: the same model for several folds).
+    Returns the list of score arrays (or raises Rejected / Violation via guarded); with capture_events also the
+    recorder events of this call."""
     import mokapot
 
     _, _, psms = build_datasets(case, tmp)
     lognames = {getattr(m.estimator, "log", None) for m in models}
+    for n in lognames:
+        if n:
+            recorder.new_log(n)
+    events = []
     try:
         with config_inject.chunk_sizes(predict=case.get("predict_chunk"), readall=case.get("readall_chunk")):
             res = guarded(
@@ -185,5 +193,6 @@ def rescore(case, tmp, models, order):
     finally:
         for n in lognames:
             if n:
+                events.extend(recorder.LOGS.get(n, []))
                 recorder.drop_log(n)
-    return res[2]
+    return (res[2], events) if capture_events else res[2]
